@@ -85,6 +85,7 @@ def ground_axioms(d, roots, rounds=3, monotone=False, bounds=False, positivity=(
                 # sign information: exp(x) > 1 <=> x > 0 ; exp(x) = 1 <=> x = 0
                 emit(d.eq(d.lt(0, x), d.lt(1, n)))
                 emit(d.eq(d.eq(x, 0), d.eq(n, 1)))
+                emit(d.eq(d.uf_raw('log', n), x))  # log(exp(x)) = x
                 adds = _addends(d, x)
                 if len(adds) > 1 or (adds and adds[0][0] != 1):
                     # exp(sum c_i t_i + c0) = prod exp(t_i)^c_i * exp(c0)  for integer c_i
@@ -122,6 +123,7 @@ def ground_axioms(d, roots, rounds=3, monotone=False, bounds=False, positivity=(
                 # sign information: log(x) > 0 <=> x > 1 ; log(x) = 0 <=> x = 1   (x > 0)
                 emit(d.or_(d.not_(d.lt(0, x)), d.eq(d.lt(1, x), d.lt(0, n))))
                 emit(d.or_(d.not_(d.lt(0, x)), d.eq(d.eq(x, 1), d.eq(n, 0))))
+                emit(d.or_(d.not_(d.lt(0, x)), d.eq(d.uf_raw('exp', n), x)))  # exp(log(x)) = x
                 const, facs = _factors(d, x)
                 if len(facs) > 1 or (facs and (facs[0][1] != 1 or const != 1)):
                     # log(c * prod f_i^p_i) = log c + sum p_i log f_i   if all f_i > 0 (and c > 0)
